@@ -149,13 +149,13 @@ Proof.
 Qed.
 
 (** the reported derivatives are the derivatives of the reported pressure *)
-Lemma derivatives_High T : 0 < T -> T <> a -> T <> b ->
-  (a < T < b -> derivable_pt_lim (fHigh e) T ((dfHigh e) T)) ->
-  (a < T < b -> derivable_pt_lim (dfHigh e) T ((ddfHigh e) T)) ->
+Lemma derivatives_High T : 0 < T ->
+  (a <= T <= b -> derivable_pt_lim (fHigh e) T ((dfHigh e) T)) ->
+  (a <= T <= b -> derivable_pt_lim (dfHigh e) T ((ddfHigh e) T)) ->
   derivable_pt_lim (pHighT e S) T (dpHighT e S T) /\
   derivable_pt_lim (dpHighT e S) T (ddpHighT e S T).
 Proof.
-  intros HT Hna Hnb Hf Hdf. assert (Hle : a <= b) by lra.
+  intros HT Hf Hdf. assert (Hle : a <= b) by lra.
   pose proof matched_lo_High as ML. pose proof matched_hi_High as MH.
   destruct S_range_High as [Ra Rb].
   rewrite dpHighT_is_DP, ddpHighT_is_DDP.
@@ -163,10 +163,18 @@ Proof.
   - eapply derivable_pt_lim_ext; [intro; apply pHighT_is_P|]. rewrite Ra, Rb.
     destruct (Rlt_dec T a); [eapply P_deriv_lo; first [eassumption | lra]|].
     destruct (Rlt_dec b T); [eapply P_deriv_hi; first [eassumption | lra]|].
+    destruct (Req_dec T a) as [Ea|Na].
+    { subst T. eapply P_deriv_at_lo with (df := dfHigh e) (ddf := ddfHigh e); first [eassumption | lra | (apply Hf; lra)]. }
+    destruct (Req_dec T b) as [Eb|Nb].
+    { subst T. eapply P_deriv_at_hi with (df := dfHigh e) (ddf := ddfHigh e); first [eassumption | lra | (apply Hf; lra)]. }
     apply P_deriv_in; [lra|]. apply Hf. lra.
   - eapply derivable_pt_lim_ext; [intro; apply dpHighT_is_DP|]. rewrite Ra, Rb.
     destruct (Rlt_dec T a); [eapply DP_deriv_lo; first [eassumption | lra]|].
     destruct (Rlt_dec b T); [eapply DP_deriv_hi; first [eassumption | lra]|].
+    destruct (Req_dec T a) as [Ea|Na].
+    { subst T. eapply DP_deriv_at_lo with (f := fHigh e) (df := dfHigh e) (ddf := ddfHigh e) (epsL := epsilonMinHighT S); first [eassumption | lra | (apply Hdf; lra) | exact 0]. }
+    destruct (Req_dec T b) as [Eb|Nb].
+    { subst T. eapply DP_deriv_at_hi with (f := fHigh e) (df := dfHigh e) (ddf := ddfHigh e) (epsH := epsilonMaxHighT S); first [eassumption | lra | (apply Hdf; lra) | exact 0]. }
     apply DP_deriv_in; [lra|]. apply Hdf. lra.
 Qed.
 
@@ -310,13 +318,13 @@ Proof.
 Qed.
 
 (** the reported derivatives are the derivatives of the reported pressure *)
-Lemma derivatives_Low T : 0 < T -> T <> a -> T <> b ->
-  (a < T < b -> derivable_pt_lim (fLow e) T ((dfLow e) T)) ->
-  (a < T < b -> derivable_pt_lim (dfLow e) T ((ddfLow e) T)) ->
+Lemma derivatives_Low T : 0 < T ->
+  (a <= T <= b -> derivable_pt_lim (fLow e) T ((dfLow e) T)) ->
+  (a <= T <= b -> derivable_pt_lim (dfLow e) T ((ddfLow e) T)) ->
   derivable_pt_lim (pLowT e S) T (dpLowT e S T) /\
   derivable_pt_lim (dpLowT e S) T (ddpLowT e S T).
 Proof.
-  intros HT Hna Hnb Hf Hdf. assert (Hle : a <= b) by lra.
+  intros HT Hf Hdf. assert (Hle : a <= b) by lra.
   pose proof matched_lo_Low as ML. pose proof matched_hi_Low as MH.
   destruct S_range_Low as [Ra Rb].
   rewrite dpLowT_is_DP, ddpLowT_is_DDP.
@@ -324,10 +332,18 @@ Proof.
   - eapply derivable_pt_lim_ext; [intro; apply pLowT_is_P|]. rewrite Ra, Rb.
     destruct (Rlt_dec T a); [eapply P_deriv_lo; first [eassumption | lra]|].
     destruct (Rlt_dec b T); [eapply P_deriv_hi; first [eassumption | lra]|].
+    destruct (Req_dec T a) as [Ea|Na].
+    { subst T. eapply P_deriv_at_lo with (df := dfLow e) (ddf := ddfLow e); first [eassumption | lra | (apply Hf; lra)]. }
+    destruct (Req_dec T b) as [Eb|Nb].
+    { subst T. eapply P_deriv_at_hi with (df := dfLow e) (ddf := ddfLow e); first [eassumption | lra | (apply Hf; lra)]. }
     apply P_deriv_in; [lra|]. apply Hf. lra.
   - eapply derivable_pt_lim_ext; [intro; apply dpLowT_is_DP|]. rewrite Ra, Rb.
     destruct (Rlt_dec T a); [eapply DP_deriv_lo; first [eassumption | lra]|].
     destruct (Rlt_dec b T); [eapply DP_deriv_hi; first [eassumption | lra]|].
+    destruct (Req_dec T a) as [Ea|Na].
+    { subst T. eapply DP_deriv_at_lo with (f := fLow e) (df := dfLow e) (ddf := ddfLow e) (epsL := epsilonMinLowT S); first [eassumption | lra | (apply Hdf; lra) | exact 0]. }
+    destruct (Req_dec T b) as [Eb|Nb].
+    { subst T. eapply DP_deriv_at_hi with (f := fLow e) (df := dfLow e) (ddf := ddfLow e) (epsH := epsilonMaxLowT S); first [eassumption | lra | (apply Hdf; lra) | exact 0]. }
     apply DP_deriv_in; [lra|]. apply Hdf. lra.
 Qed.
 
@@ -420,17 +436,17 @@ Theorem reported_derivatives_are_derivatives : forall e s0,
   (tabMinHigh e < tabMaxHigh e -> 0 < tabMinHigh e ->
    dfHigh e (tabMinHigh e) < 0 -> ddfHigh e (tabMinHigh e) < 0 ->
    dfHigh e (tabMaxHigh e) < 0 -> ddfHigh e (tabMaxHigh e) < 0 ->
-   forall T, 0 < T -> T <> tabMinHigh e -> T <> tabMaxHigh e ->
-   (tabMinHigh e < T < tabMaxHigh e -> derivable_pt_lim (fHigh e) T (dfHigh e T)) ->
-   (tabMinHigh e < T < tabMaxHigh e -> derivable_pt_lim (dfHigh e) T (ddfHigh e T)) ->
+   forall T, 0 < T ->   (* EVERY positive temperature, the two junctions included *)
+   (tabMinHigh e <= T <= tabMaxHigh e -> derivable_pt_lim (fHigh e) T (dfHigh e T)) ->
+   (tabMinHigh e <= T <= tabMaxHigh e -> derivable_pt_lim (dfHigh e) T (ddfHigh e T)) ->
    derivable_pt_lim (pHighT e (setExtrapolate e s0)) T (dpHighT e (setExtrapolate e s0) T) /\
    derivable_pt_lim (dpHighT e (setExtrapolate e s0)) T (ddpHighT e (setExtrapolate e s0) T)) /\
   (tabMinLow e < tabMaxLow e -> 0 < tabMinLow e ->
    dfLow e (tabMinLow e) < 0 -> ddfLow e (tabMinLow e) < 0 ->
    dfLow e (tabMaxLow e) < 0 -> ddfLow e (tabMaxLow e) < 0 ->
-   forall T, 0 < T -> T <> tabMinLow e -> T <> tabMaxLow e ->
-   (tabMinLow e < T < tabMaxLow e -> derivable_pt_lim (fLow e) T (dfLow e T)) ->
-   (tabMinLow e < T < tabMaxLow e -> derivable_pt_lim (dfLow e) T (ddfLow e T)) ->
+   forall T, 0 < T ->
+   (tabMinLow e <= T <= tabMaxLow e -> derivable_pt_lim (fLow e) T (dfLow e T)) ->
+   (tabMinLow e <= T <= tabMaxLow e -> derivable_pt_lim (dfLow e) T (ddfLow e T)) ->
    derivable_pt_lim (pLowT e (setExtrapolate e s0)) T (dpLowT e (setExtrapolate e s0) T) /\
    derivable_pt_lim (dpLowT e (setExtrapolate e s0)) T (ddpLowT e (setExtrapolate e s0) T)).
 Proof. intros e s0. split; intros; [apply derivatives_High|apply derivatives_Low]; assumption. Qed.
